@@ -306,7 +306,7 @@ func (r *Report) writeEvidence(tot, dis, nfail int, kf []map[string]string) {
 	var samples []Ob
 	per := map[string]int{}
 	for _, o := range r.obs {
-		if o.Status == Discharged && per[o.Rule] < 4 {
+		if o.Status == Discharged && per[o.Rule] < sampleCap() {
 			per[o.Rule]++
 			samples = append(samples, o)
 		}
@@ -356,4 +356,12 @@ func (r *Report) writeEvidence(tot, dis, nfail int, kf []map[string]string) {
 	os.MkdirAll(dir, 0o755)
 	b, _ := json.MarshalIndent(ev, "", " ")
 	os.WriteFile(filepath.Join(dir, r.Prop+".json"), append(b, '\n'), 0o644)
+}
+
+// sampleCap: number of discharged obligations per rule written to the evidence samples (all of them with VERIF_ALL_SAMPLES=1).
+func sampleCap() int {
+	if os.Getenv("VERIF_ALL_SAMPLES") != "" {
+		return 1 << 30
+	}
+	return 4
 }
